@@ -687,7 +687,7 @@ func objectUniverse(namespaces, names []string, lms []map[string]string, typed b
 				}
 			}
 		}
-		for _, k := range []string{"Pod", "Service"} {
+		for _, k := range []string{"Pod", "Service", ""} {
 			for _, ns := range namespaces[:2] {
 				for _, n := range names[:2] {
 					out = append(out, &corev1.Event{ObjectMeta: metav1.ObjectMeta{Namespace: ns, Name: "ev", ResourceVersion: "1"},
